@@ -23,6 +23,7 @@ fn main() {
         Some("c16-builders") => more::c16_builders(),
         Some("c16-subst") => more::c16_subst(),
         Some("c08-resolve") => more::c08_resolve(),
+        Some("c11-validate") => more::c11_validate(),
         _ => {
             eprintln!("usage: vreplay fmt-search <maxlen> <seed> | fmt-one <string> | fmt-repeat <string> <count>");
             2
